@@ -42,6 +42,8 @@ const (
 	OpProcWait
 	OpNote
 	OpBlockForever
+	OpEvalSymlinks
+	OpReadlink
 	opMax
 )
 
@@ -52,7 +54,7 @@ var opNames = [...]string{
 	OpStat: "stat", OpReadDir: "readdir", OpWriteFile: "writefile", OpGetwd: "getwd",
 	OpNumCPU: "numcpu", OpNow: "now", OpSleep: "sleep", OpLookPath: "lookpath",
 	OpProcStart: "procstart", OpProcStdin: "procstdin", OpProcWait: "procwait",
-	OpNote: "note", OpBlockForever: "blockforever",
+	OpNote: "note", OpBlockForever: "blockforever", OpEvalSymlinks: "evalsymlinks", OpReadlink: "readlink",
 }
 
 func (o Op) String() string {
